@@ -184,6 +184,27 @@ def _verdict(o, fn, t, rts, what, node):
             return "undecided"
     except Exception:
         pass
+    # `max(n, 1)` on a count (n >= 0): the clamp binds only when the counted collection is EMPTY - typically a divisor inside a loop over
+    # that very collection, which then does not run.  Equal to the formula everywhere else; the empty case is not decided here.
+    def _erase_unit_clamp(x):
+        if isinstance(x, tuple):
+            if len(x) == 3 and x[0] == "call" and x[1] == "max" and isinstance(x[2], tuple) and len(x[2]) == 2:
+                for c_, other in ((x[2][0], x[2][1]), (x[2][1], x[2][0])):
+                    try:
+                        if tm.is_const(c_) == 1 and tm.lower_bound(other) == 0:
+                            oa = tm.single_atom(other)
+                            return _erase_unit_clamp(oa) if oa is not None else x
+                    except Exception:
+                        pass
+            return tuple(_erase_unit_clamp(y) for y in x)
+        return x
+    try:
+        tc = tm.canon(_erase_unit_clamp(t))
+        if tc != t and any(tc == rt for rt in rts):
+            o.undecided(f"{what}: the formula is the reference's up to `max(<count>, 1)`: the clamp binds only for an empty collection, a case not decided here", fn, node or fn.node)
+            return "undecided"
+    except Exception:
+        pass
     more = sorted(nm for nm, ns in ta.items() if nm in ra and max(ns) > max(ra[nm]))
     if more:
         o.undecided(f"{what}: the code calls {more} with more arguments than the formula does (a parameter was added to it): not comparable", fn, node or fn.node)
@@ -217,6 +238,39 @@ def _verdict(o, fn, t, rts, what, node):
             for y in x:
                 n_ += _n_if(y)
         return n_
+    # One extra case selected by `<parameter> == <constant>` whose other branch IS the formula: evaluate the formula at that point.
+    # Equal -> the shortcut agrees with the formula there (holds).  Different, with both sides plain polynomials after the substitution
+    # (no sums / products left that might still fold) -> the shortcut returns something else than the formula does at that point.
+    try:
+        at = tm.single_atom(t)
+        if at is not None and at[0] == "ifexp" and len(at) == 4:
+            ca = tm.single_atom(at[1])
+            if ca is not None and ca[0] == "cmp" and ca[1] == "Eq":
+                lhs, rhs = ca[2], ca[3]
+                for sy, cv in ((lhs, rhs), (rhs, lhs)):
+                    sa = tm.single_atom(sy)
+                    if sa is not None and sa[0] == "sym" and tm.is_const(cv) is not None:
+                        for rt in rts:
+                            if at[3] == rt:
+                                special = tm.canon(tm.subst(at[2], sa[1], cv))
+                                formula = tm.canon(tm.subst(rt, sa[1], cv))
+                                if special == formula:
+                                    o.holds(fn, node or fn.node, f"{what}: the extra case `{tm.show(at[1])}` returns what the formula gives at that point; elsewhere the normal form "
+                                                                 "equals the reference formula", construct=tm.show(t)[:400])
+                                    return "equal"
+                                def _plain(x):
+                                    return not any(isinstance(y, tuple) and y and y[0] in ("sum", "prod", "seq", "reduce", "ifexp", "opaque") for y in _walk(x))
+                                def _walk(x):
+                                    if isinstance(x, tuple):
+                                        yield x
+                                        for y in x:
+                                            yield from _walk(y)
+                                if _plain(special) and _plain(formula):
+                                    o.violated(fn, node or fn.node, f"{what}: the shortcut for `{tm.show(at[1])}` returns  {tm.show(special)[:120]}  but the formula gives  "
+                                                                    f"{tm.show(formula)[:120]}  at that point")
+                                    return "different"
+    except Exception:
+        pass
     if _n_if(t) > max(_n_if(rt) for rt in rts):
         o.undecided(f"{what}: the code distinguishes more cases than the formula ({_n_if(t)} conditional(s)): not comparable", fn, node or fn.node)
         return "undecided"
